@@ -217,6 +217,9 @@ impl Sched {
             .map(|(i, _)| i)
             .collect()
     }
+    fn unfinished(&self) -> usize {
+        self.tasks.borrow().iter().filter(|s| !s.done).count()
+    }
     /// Polls task `i` once (the future is taken out of the table while it runs, because the poll
     /// may call `spawn`).
     fn poll(&self, i: usize) {
@@ -335,9 +338,7 @@ fn run_sched(script: &str, mut chooser: Chooser) -> RunOut {
         }
         let r = sched.runnable();
         if r.is_empty() {
-            if status.is_some() {
-                // The main shell has finished and nothing is runnable.  Virtual time is not advanced any
-                // more: what is still asleep stays asleep (see notes/C13.md, "killed process runs on").
+            if status.is_some() && sched.unfinished() == 0 {
                 break;
             }
             // nothing is runnable: let virtual time pass if somebody sleeps, else the run is over
@@ -765,23 +766,7 @@ fn gen_jobs_program(r: &mut Rng, thorough: bool) -> String {
                             clean = false;
                         }
                         "INT" | "QUIT" if j.igniq => {}
-                        _ => {
-                            // dead: waited for at once (see notes/C13.md, "killed process runs on")
-                            j.fresh = false;
-                            j.open = false;
-                            stmts.push(format!("k {sig} {}", i + 1));
-                            for j in jobs.iter_mut() {
-                                j.fresh = false;
-                            }
-                            if jobs.iter().all(|j| !j.open) {
-                                epoch.clear();
-                                clean = true;
-                            } else {
-                                clean = false;
-                            }
-                            stmts.push(format!("wj {}", i + 1));
-                            continue;
-                        }
+                        _ => j.fresh = false, // dead; stays in the job table until it is waited for
                     }
                     format!("k {sig} {}", i + 1)
                 }
